@@ -23,7 +23,7 @@ COQ_TARGETS = ["Tie/C10.vo", "Properties/C10.vo"]
 PROPERTY_FILE = "Properties/C10.v"
 TIE = "Tie.C10"
 DRIVER = "c10_driver.py"
-DRIVER_TIMEOUT = 900
+DRIVER_TIMEOUT = 3600
 SHARD = 150
 THEOREMS = [
     "C10_SB_extends_eq_py", "C10_SB_call_eq_py", "C10_SB_providedBy_eq_py", "C10_hash_eq_py",
@@ -745,7 +745,7 @@ def generate(run, tier):
     global _GENERATED
     _GENERATED = True
     rng = run.rng("gen")
-    n = 500 if tier == "quick" else 15000
+    n = 500 if tier == "quick" else 8000
     cases = gen_matrix(rng)
     for k in range(n):
         stress = "odd" if k % 5 == 0 else None
